@@ -22,10 +22,12 @@ VARIABLES cbs,       \* sequence of [kind |-> "type" | "all", typ |-> t, live |-
                      \* exported - an implementation's maps may depend on the order in which a state was reached)
           lastev,    \* the type of the last dispatched event before the operations in lastop ("-": none) - part of the view: what an
                      \* implementation remembers from one dispatch to the next (a cached lookup) must not matter
+          stopped,   \* a callback ended the connection (cancelled the request's context) while its event was being dispatched:
+                     \* no further event arrives, but that event still reaches every receiver
           hist       \* operations so far, each event with the callbacks that must be invoked
-vars == <<cbs, connected, lastop, lastev, hist>>
+vars == <<cbs, connected, lastop, lastev, stopped, hist>>
 
-Init == cbs = <<>> /\ connected = FALSE /\ lastop = <<>> /\ lastev = "-" /\ hist = <<>>
+Init == cbs = <<>> /\ connected = FALSE /\ lastop = <<>> /\ lastev = "-" /\ stopped = FALSE /\ hist = <<>>
 
 Push(op) == /\ lastop' = (IF Len(lastop) < 3 THEN lastop ELSE Tail(lastop)) \o <<op>>
             /\ lastev' = IF Len(lastop) = 3 /\ Head(lastop)[1] = "event" THEN Head(lastop)[2] ELSE lastev
@@ -40,7 +42,7 @@ Subscribe(kind, t) ==
     /\ cbs' = Append(cbs, [kind |-> kind, typ |-> t, live |-> TRUE])
     /\ Push(<<"sub", kind, t>>)
     /\ hist' = Append(hist, [op |-> "sub", kind |-> kind, typ |-> t, cb |-> Len(cbs) + 1, recv |-> {}])
-    /\ UNCHANGED connected
+    /\ UNCHANGED <<connected, stopped>>
 
 \* calling a remover: of a live callback, or again, or a stale one
 Unsubscribe(i) ==
@@ -48,23 +50,31 @@ Unsubscribe(i) ==
     /\ cbs' = [cbs EXCEPT ![i].live = FALSE]
     /\ Push(<<"unsub", i, cbs[i].live>>)
     /\ hist' = Append(hist, [op |-> "unsub", kind |-> "", typ |-> "", cb |-> i, recv |-> {}])
-    /\ UNCHANGED connected
+    /\ UNCHANGED <<connected, stopped>>
 
 Connect ==
     /\ Can /\ ~connected
     /\ connected' = TRUE /\ Push(<<"connect">>)
     /\ hist' = Append(hist, [op |-> "connect", kind |-> "", typ |-> "", cb |-> 0, recv |-> {}])
-    /\ UNCHANGED cbs
+    /\ UNCHANGED <<cbs, stopped>>
 
 \* an event of type t arrives: exactly Receivers(t) are invoked, each once
 Event(t) ==
-    /\ Can /\ connected
+    /\ Can /\ connected /\ ~stopped
     /\ Push(<<"event", t>>)
     /\ hist' = Append(hist, [op |-> "event", kind |-> "", typ |-> t, cb |-> 0, recv |-> Receivers(t)])
+    /\ UNCHANGED <<cbs, connected, stopped>>
+
+\* the same, and every callback invoked for it cancels the request's context (a terminal event): dispatch of that event is not cut short
+EventAndStop(t) ==
+    /\ Can /\ connected /\ ~stopped /\ Cardinality(Receivers(t)) >= 2
+    /\ Push(<<"event", t>>)
+    /\ stopped' = TRUE
+    /\ hist' = Append(hist, [op |-> "event", kind |-> "stop", typ |-> t, cb |-> 0, recv |-> Receivers(t)])
     /\ UNCHANGED <<cbs, connected>>
 
 Next ==
-    \/ \E t \in Types : Subscribe("type", t) \/ Event(t)
+    \/ \E t \in Types : Subscribe("type", t) \/ Event(t) \/ EventAndStop(t)
     \/ Subscribe("all", "")
     \/ \E i \in 1..Len(cbs) : Unsubscribe(i)
     \/ Connect
@@ -72,7 +82,7 @@ Next ==
 Spec == Init /\ [][Next]_vars
 
 \* two histories that leave the registry in the same state through the same last operation are explored once
-View == <<cbs, connected, lastop, lastev>>
+View == <<cbs, connected, lastop, lastev, stopped>>
 
 -----------------------------------------------------------------------------
 \* a removed callback is never invoked again, and removing one never affects another subscription
